@@ -814,10 +814,36 @@ def subst_inst(text, inst):
     return text
 
 
-def process_template(unit_name, path, inst=None):
+def process_template(unit_name, path, inst=None, vacuity=False):
+    """vacuity=False: the unit proper.  vacuity=True: the same text plus the reachability / consistency guards (twin functions
+    `vacuity_*`); it goes to a file of its own, so that the guards cannot perturb the solver on the real obligations"""
     unit = Unit(unit_name, inst)
+    unit.vacuity = vacuity
     _process_file(unit, path, inst or {}, top=True)
+    if vacuity:
+        _emit_axiom_guard(unit)
     return unit
+
+
+def _emit_axiom_guard(unit):
+    """consistency guard for everything ASSUMED in the unit (DESIGN 7): with every broadcast axiom group in scope and every
+    parameterless axiom invoked, `false` must not be provable.  Verus must FAIL this function."""
+    txt = "\n".join(unit.out_lines)
+    groups = re.findall(r"\bbroadcast\s+group\s+(\w+)\s*\{", txt)
+    bcast = re.findall(r"\bbroadcast\s+axiom\s+fn\s+(\w+)\s*[(<]", txt)
+    zero = [z for z in re.findall(r"\baxiom\s+fn\s+(\w+)\s*\(\s*\)", txt) if z not in bcast]
+    groups = groups + bcast
+    end = [i for i, ln in enumerate(unit.out_lines) if ln.strip().startswith("} // verus!")]
+    if not end:
+        return
+    lines = ["#[verifier::rlimit(4)]", "proof fn vacuity_axioms()", "    ensures false,", "{"]
+    lines += [f"    broadcast use {g};" for g in dict.fromkeys(groups)]
+    lines += [f"    {z}();" for z in dict.fromkeys(zero)]
+    lines += ["}"]
+    b = dict(kind="glue", fn="vacuity_axioms", props=[])
+    at = end[-1]
+    unit.out_lines[at:at] = lines
+    unit.linemap[at:at] = [b] * len(lines)
 
 
 def _process_file(unit, path, inst, top=False):
@@ -847,8 +873,12 @@ def _process_file(unit, path, inst, top=False):
                 raise ExtractError(f"lost anchor: const {a['name']} in crate {a['crate']}")
             j = hits[0]
             while toks[j].text != ";":
-                j += 1
-            unit.emit("pub " + src[toks[hits[0]].start:toks[j].end] + f"   // extracted from {a['crate']}",
+                # a `;` inside brackets (`[&str; 11]`) is not the end of the item
+                j = match_close(toks, j) + 1 if toks[j].text in rtok.OPEN else j + 1
+            ctext = src[toks[hits[0]].start:toks[j].end]
+            # inside verus! an elided lifetime of a const's type is not accepted: `&str` is `&'static str` there (Rust's own rule)
+            ctext = re.sub(r"&\s*str\b", "&'static str", ctext)
+            unit.emit("pub " + ctext + f"   // extracted from {a['crate']}",
                       dict(kind="code", fn=a["name"], crate=a["crate"], src_fn=a["name"], props=[], file=rel))
             i += 1
             continue
@@ -1069,6 +1099,17 @@ def emit_fn(unit, blk, rel):
                 edits.append((toks_b[s].start, toks_b[be].end, rep))
                 continue
             cbody = apply_nested_annotations(blk, k, cbody, name, MARK)
+            if f"at closure {k} tail" in blk.sections:
+                # ghost text INSIDE the closure's block, after its tail expression has been bound to `__r`: the block's locals
+                # (e.g. an inner closure value) are still in scope there, unlike in `at closure k last`
+                if not cbody.lstrip().startswith("{"):
+                    raise ExtractError(f"lost anchor: contract of {name} has text at the tail of closure {k}, whose body is not a block")
+                cb = cbody.strip()
+                inner_c = cb[1:-1]
+                cut_c = tail_start(tokenize(inner_c))
+                if cut_c is None:
+                    raise ExtractError(f"lost anchor: contract of {name} has text at the tail of closure {k}, whose block has no tail expression")
+                cbody = "{" + inner_c[:cut_c] + " let __r = " + inner_c[cut_c:].rstrip() + ";" + MARK.format(f"at closure {k} tail") + " __r }"
             closure_defs.append(make_closure(unit, blk, k, ca, cparams, cbody, body.text, toks_b, s, base))
             edits.append((toks_b[s].start, toks_b[be].end, f"&mut __clo{k}"))
         body.edit(edits, "R9")
@@ -1158,9 +1199,41 @@ def emit_fn(unit, blk, rel):
     unit.emit(sig_text.rstrip(), hdr)
     _emit_section(unit, blk, "spec", base)
     emit_marked(unit, blk, final, base)
+    emit_vacuity_twin(unit, blk, sig_text, newname, base)
     unit.functions.append(dict(name=newname, src_fn=name, crate=crate, ctx=ctx, props=props,
                                rules=sorted(set(r for r in body.rules if r)), template=rel,
                                closures=[blk.closures[k].get("name", f"closure{k}") for k in sorted(blk.closures, key=str)]))
+
+
+def emit_vacuity_twin(unit, blk, sig_text, newname, base):
+    """reachability guard behind the precondition of a contracted function (DESIGN 7): a twin with the same signature and the
+    same `requires`, whose body asserts false.  Verus must FAIL it; if it verifies, the precondition is unsatisfiable (or the
+    axioms in scope are contradictory) and every postcondition of the real function holds vacuously: the run ends UNDECIDED."""
+    if not getattr(unit, "vacuity", False):
+        return
+    spec = [t for t, _ in _section_text(blk, "spec")]
+    req, on = [], False
+    for t in spec:
+        w = t.strip().split(None, 1)[0] if t.strip() else ""
+        if w == "requires":
+            on = True
+        elif w in ("ensures", "decreases", "recommends", "opens_invariants", "no_unwind"):
+            on = False
+        if on:
+            req.append(t)
+    if not req:
+        return
+    m = re.search(r"\bfn\s+" + re.escape(newname) + r"\b", sig_text)
+    if not m:
+        return
+    tsig = sig_text[:m.start()] + "fn vacuity_" + newname + sig_text[m.end():]
+    has_ret = "->" in tsig
+    b = dict(base, kind="glue", fn="vacuity_" + newname, props=[])
+    unit.emit("#[verifier::rlimit(4)]", b)
+    unit.emit(tsig.rstrip(), b)
+    for t in req:
+        unit.emit(t.split("// #")[0].rstrip(), b)
+    unit.emit("{ proof { assert(false); } " + ("unreached() }" if has_ret else "}"), b)
 
 
 def emit_marked(unit, blk, text, base):
@@ -1270,11 +1343,14 @@ def make_closure(unit, blk, k, ca, cparams, cbody, ftext, ftoks, start_idx, base
         ghost_fields = ca.get("ghost_fields", f"pub h: Ghost<Seq<{ca.get('callty', 'Call<T, U>')}>>,")
         if needs_typing_pad(caps):
             ghost_fields += " pub __pad: Ghost<nat>,"
-        unit.emit(f"pub struct {name}{ca.get('generics', '')} {{ {fields} {ghost_fields} }}", dict(b, kind="meta"))
+        unit.emit(f"pub struct {name}{ca.get('struct_generics', ca.get('generics', ''))} {{ {fields} {ghost_fields} }}", dict(b, kind="meta"))
         unit.emit(f"impl{ca.get('generics', '')} {ca['trait']} for {name}{ca.get('generics_use', '')} {{", dict(b, kind="meta"))
         for (txt, ol) in blk.sections.get(f"closure {k} extra", []):
             unit.emit(txt, dict(b, kind="contract", section="extra", cline=ol))
         imm = [(nm, ty) for (m, nm, ty) in caps if not m]
+        # ghost fields that are part of the configuration (never assigned by `call`): `cfg_extra="name: Type, .."`
+        for ce in split_top(ca.get("cfg_extra", "")):
+            imm.append((ce.split(":")[0].strip(), ce.split(":", 1)[1].strip()))
         cfg_ty = "(" + "".join(f"{ty}, " for _, ty in imm) + ")"
         cfg_val = "(" + "".join(f"self.{nm}, " for nm, _ in imm) + ")"
         unit.emit(f"    type Cfg = {cfg_ty};", dict(b, kind="glue"))
